@@ -13,6 +13,12 @@ NOTE = ("Trusted base: clang 14 front end + CFG builder on the flags of the comp
 
 CLAIMS = {
     # pid: (technique, level text, design_ref)
+    "C10": ("who-may-call over the call graph reachable from main; purity (effect) summaries propagated bottom-up and applied to every node that is control-dependent on log_sev_on() and to the observer entry points; banned-callee and pointer-order queries with a positive example",
+            "All delivery modes are shown to reach output_text only through uncrustify_file with the loaded file_mem; each of the ~16000 "
+            "nodes that execute only when a log severity is enabled (all LOG_FMT arguments included) and every logging/dump/parsed-"
+            "output function is shown free of writes to formatter state, so observer options cannot change the bytes; environment, "
+            "clock, locale and random sources are read only at four reviewed sites; no pointer ordering or pointer-keyed iteration "
+            "exists. This covers every input and option subset at once. Uninitialised reads are not decided.", "DESIGN.md section 4 C10"),
     "C11": ("inter-procedural global-state analysis over the resolved call graph: per location, upward-exposed loads from do_source_file's entry (must-initialise summaries) and may-return-dirty summaries specialised on bool literals at call sites; must-pass-through for the per-file cleanup",
             "For each of the ~48 global locations that per-file code both writes and reads (cp_data_t fields, namespace/class/function "
             "statics, the option values) the check shows that no read can see a value left by a previous file, or that every return of "
